@@ -36,6 +36,7 @@ func main() {
 	dumpReg := flag.Bool("registry", false, "debug: print the extracted registry")
 	dumpCFG := flag.String("cfg", "", "debug: print the CFG of a function")
 	dumpSCC := flag.Bool("sccs", false, "debug: print recursive call-graph components")
+	dumpLVal := flag.Bool("lvalwrites", false, "debug: survey LVal stores/appends/views")
 	flag.Parse()
 	debug.SetGCPercent(200)
 
@@ -43,6 +44,15 @@ func main() {
 		for _, id := range sortedKeys(ruleRegistry) {
 			fmt.Printf("%-28s floor=%-3d %s\n", id, ruleRegistry[id].Floor, ruleRegistry[id].Doc)
 		}
+		return
+	}
+	if *dumpLVal {
+		c, err := Load(*repo, buildConfigs["default"])
+		if err != nil {
+			fmt.Println(err)
+			os.Exit(1)
+		}
+		debugLValWrites(c)
 		return
 	}
 	if *dumpSCC {
